@@ -99,11 +99,11 @@ class Universe:
 
 
 def last_seg(fnpath):
-    return re.sub(r'^.*::', '', fnpath)
+    return re.sub(r'^.*[:/]', '', fnpath)
 
 
 def short_fn(fnpath):
-    return re.sub(r'[<>]', '', fnpath).replace(' for ', '_for_').replace('::', '.').replace(' ', '_')
+    return re.sub(r'[<>]', '', fnpath).replace(' for ', '_for_').replace('::', '.').replace('/', '.').replace(' ', '_')
 
 
 def locate(info, fname, line, col=None):
